@@ -158,7 +158,7 @@ impl Property for C13 {
     const ID: &'static str = "C13";
 
     fn families(_tier: Tier) -> u32 {
-        8
+        10
     }
 
     fn strategy(tier: Tier, family: u32) -> BoxedStrategy<Case> {
@@ -197,11 +197,33 @@ impl Property for C13 {
                     small.boxed(),
                 ),
                 5 | 6 => (mt_kind(false).boxed(), small.boxed()),
-                _ => (mt_kind(true).boxed(), small.boxed()),
+                7 => (mt_kind(true).boxed(), small.boxed()),
+                // long pricing passes (normal mode, nice_len below the maximum): look-ahead gating
+                _ => (
+                    prop_oneof![
+                        2 => prop_oneof![Just(Framing::HeaderEos), Just(Framing::RawSized)].prop_map(|framing| Kind::Lzma { framing }),
+                        1 => Just(Kind::Lzma2),
+                        1 => (0u8..4).prop_map(|check| Kind::Xz { check, filters: vec![] }),
+                        1 => Just(Kind::Lzip { member: None }),
+                    ]
+                    .boxed(),
+                    (opts_strategy(1 << 20, true), 8u32..=272, prop_oneof![Just(65_536u32), Just(1u32 << 20), 4096u32..(1 << 20)])
+                        .prop_map(|(mut o, nice, d)| {
+                            o.mode = 1;
+                            o.nice_len = nice;
+                            o.dict_size = d;
+                            o
+                        })
+                        .boxed(),
+                ),
             }
         };
         let preset = prop_oneof![5 => Just(None), 1 => data_strategy(2, 3000).prop_map(Some)];
-        let data = prop_oneof![1 => Just(Data::default()), 9 => data_strategy(5, tier.pick(30_000, 200_000))];
+        let data = if !shuttle && family >= 8 {
+            long_pass_strategy(tier.pick(12_000, 40_000))
+        } else {
+            prop_oneof![1 => Just(Data::default()), 9 => data_strategy(5, tier.pick(30_000, 200_000))].boxed()
+        };
         #[cfg(lzma_rust2_verif_shuttle)]
         let sched = crate::mt::sched_strategy().prop_map(|s| serde_json::to_value(s).unwrap()).boxed();
         #[cfg(not(lzma_rust2_verif_shuttle))]
@@ -269,6 +291,10 @@ impl Property for C13 {
         let pieces: Vec<usize> = case.plans.iter().map(|p| p.pieces(&data).len()).collect();
         let differ = pieces.iter().any(|&n| n != pieces[0]) || multi.iter().any(|&m| m);
         obs.class_if(differ, "partitions_differ");
+        obs.class_if(
+            !is_mt && case.opts.mode == 1 && case.opts.nice_len < 273 && case.data.segs.iter().any(|s| matches!(s, Seg::Tiles { len, .. } if *len >= 4000)),
+            "long_pricing_pass",
+        );
         if let Kind::Lzma2Mt { unit } | Kind::LzipMt { unit } = &case.kind {
             let eff = (*unit).max(case.opts.dict_size as u64) as usize;
             obs.class_if(data.len() > eff, "multi_unit");
